@@ -188,3 +188,38 @@ Proof.
        p_ratio_provided p_ratio_in].
   rewrite Hf. destruct (p_kind p); try destruct (p_eq_provided p); try destruct (p_cogen p); nra.
 Qed.
+
+(* ---- lateral sections ---- *)
+Lemma lateral_vertical_zero pm simple cased coef nsec len per_m adj :
+  lateral_cost true pm simple cased coef nsec len per_m adj = 0.
+Proof. reflexivity. Qed.
+
+Lemma lateral_uncased_half pm simple coef nsec len per_m adj v :
+  lateral_cost v pm simple false coef nsec len per_m adj == (1 # 2) * lateral_cost v pm simple true coef nsec len per_m adj.
+Proof.
+  unfold lateral_cost. destruct v; [ring|].
+  destruct (pm || simple || Qltb (len / nsec) 500); unfold Qdiv; ring.
+Qed.
+
+Lemma lateral_per_metre pm simple cased coef nsec len per_m adj :
+  ~ nsec == 0 -> pm = true \/ simple = true \/ len / nsec < 500 ->
+  lateral_cost false pm simple cased coef nsec len per_m adj == adj * ((if cased then 1 else 1 # 2) * (per_m * len) / 1000000).
+Proof.
+  intros Hn H. unfold lateral_cost.
+  assert (E : pm || simple || Qltb (len / nsec) 500 = true).
+  { destruct H as [-> | [-> | H]]; [reflexivity | now rewrite orb_true_r | ].
+    rewrite orb_true_iff. right. unfold Qltb. destruct (Qle_bool 500 (len / nsec)) eqn:C; [|reflexivity].
+    apply Qle_bool_iff in C. exfalso. exact (Qlt_not_le _ _ H C). }
+  rewrite E. destruct cased; field; exact Hn.
+Qed.
+
+Lemma lateral_by_correlation cased coef nsec len per_m adj :
+  500 <= len / nsec ->
+  lateral_cost false false false cased coef nsec len per_m adj == adj * ((if cased then 1 else 1 # 2) * nsec * quad_cost coef (len / nsec)).
+Proof.
+  intros H. unfold lateral_cost. cbn [orb].
+  assert (E : Qltb (len / nsec) 500 = false).
+  { unfold Qltb. assert (C : Qle_bool 500 (len / nsec) = true) by (apply Qle_bool_iff; exact H). now rewrite C. }
+  rewrite E. destruct cased; ring.
+Qed.
+
